@@ -121,34 +121,206 @@ func checkNewAttributeStartsClean(p *Program, r *Report, rule string) {
 // HTML through, in place of the attribute escaper.
 func checkPredefinedEscaperTest(p *Program, r *Report, rule string) {
 	pv := NewProv(p)
+	fn := p.Func("template", "ensurePipelineContains")
+	if fn == nil {
+		r.Undec(rule, "template.ensurePipelineContains", "", "anchor not found")
+		return
+	}
+	// a membership test on a name: a lookup in a package-level map keyed by strings, or a predicate of the module
+	// over one string; the name tested must be the identifier as written (the Ident field), not a transformation of it
+	n := 0
+	derivesFromIdent := func(e *Expr) (raw, transformed bool) {
+		if e.Op == "field" && e.Name == "Ident" {
+			return true, false
+		}
+		found := false
+		e.Walk(func(x *Expr) bool {
+			if x.Op == "field" && x.Name == "Ident" {
+				found = true
+			}
+			return true
+		})
+		return false, found
+	}
+	for _, b := range fn.Blocks {
+		for _, in := range b.Instrs {
+			var arg ssa.Value
+			switch x := in.(type) {
+			case *ssa.Lookup:
+				if u, ok := x.X.(*ssa.UnOp); ok {
+					if _, isG := u.X.(*ssa.Global); isG && isStringish(x.Index.Type()) {
+						// only maps that answer "is it one of these names": bool or empty-struct values
+						if mt, ok := u.Type().Underlying().(*types.Map); ok {
+							if bt, ok := mt.Elem().Underlying().(*types.Basic); ok && bt.Info()&types.IsBoolean != 0 {
+								arg = x.Index
+							}
+							if st, ok := mt.Elem().Underlying().(*types.Struct); ok && st.NumFields() == 0 {
+								arg = x.Index
+							}
+						}
+					}
+				}
+			case *ssa.Call:
+				g := staticCallee(x.Common())
+				if g != nil && g.Pkg == fn.Pkg && len(x.Common().Args) == 1 && isStringish(x.Common().Args[0].Type()) && g.Signature.Results().Len() == 1 {
+					if bt, ok := g.Signature.Results().At(0).Type().Underlying().(*types.Basic); ok && bt.Info()&types.IsBoolean != 0 {
+						arg = x.Common().Args[0]
+					}
+				}
+			}
+			if arg == nil {
+				continue
+			}
+			e := pv.Of(arg)
+			raw, transformed := derivesFromIdent(e)
+			if !raw && !transformed {
+				continue
+			}
+			n++
+			c := strings.TrimPrefix(fnName(fn), modulePath+"/") + "#predefined-escaper-test"
+			r.Check(raw, rule, c, p.Pos(in.Pos()), "the predefined-escaper test looks at the identifier as written in the pipeline", "the predefined-escaper test looks at "+trunc(e.String(), 120)+" instead of the identifier as written: a contextual sanitizer left by an earlier rewrite (_sanitizeHTML, which passes safe HTML through) is then taken for the built-in html escaper and stands in for the attribute escaper")
+		}
+	}
+	if n == 0 {
+		r.Undec(rule, "template.ensurePipelineContains#predefined-escaper-test", "", "no membership test on the last identifier of the pipeline found")
+	}
+}
+
+// checkParsedTextGoesToRegisteredMember (C08.R10 / C07.R6): the execution gate records the outcome of an analysis
+// (sticky error, emptied tree) on the member registered in the name space under the template's name. A wrapper
+// that is handed parsed text must therefore be that registered member (a lookup in the set, or a member created
+// for the name): a method that stores the text template or the tree into its own receiver fills a handle that New
+// may have detached from the set, and a failed analysis then empties the shared text tree without marking the
+// handle — its next execution dereferences a nil tree.
+func checkParsedTextGoesToRegisteredMember(p *Program, r *Report, rule string) {
 	n := 0
 	for _, fn := range p.SrcFuncs() {
-		if fn.Pkg == nil || fn.Pkg.Pkg.Path() != modulePath+"/template" {
+		if fn.Pkg == nil || fn.Pkg.Pkg.Path() != modulePath+"/template" || fn.Signature.Recv() == nil || len(fn.Params) == 0 {
 			continue
 		}
+		if !isNamed(fn.Params[0].Type(), pkgTemplate, "Template") {
+			continue
+		}
+		recv := fn.Params[0]
 		for _, b := range fn.Blocks {
 			for _, in := range b.Instrs {
-				lk, ok := in.(*ssa.Lookup)
+				st, ok := in.(*ssa.Store)
 				if !ok {
 					continue
 				}
-				u, ok := lk.X.(*ssa.UnOp)
-				if !ok {
+				fa, ok := st.Addr.(*ssa.FieldAddr)
+				if !ok || !isNamed(fa.X.Type(), pkgTemplate, "Template") {
 					continue
 				}
-				g, ok := u.X.(*ssa.Global)
-				if !ok || cname(g) != "predefinedEscapers" {
+				f := fieldName(fa.X.Type(), fa.Field)
+				if f != "text" && f != "Tree" {
 					continue
 				}
 				n++
-				e := pv.Of(lk.Index)
-				okIdent := e.Op == "field" && e.Name == "Ident"
-				c := strings.TrimPrefix(fnName(fn), modulePath+"/") + "#predefined-escaper-test"
-				r.Check(okIdent, rule, c, p.Pos(in.Pos()), "the predefined-escaper test looks up the identifier as written in the pipeline", "the predefined-escaper test looks up "+trunc(e.String(), 120)+" instead of the identifier as written: a contextual sanitizer left by an earlier rewrite (_sanitizeHTML, which passes safe HTML through) is then taken for the built-in html escaper and stands in for the attribute escaper")
+				// can the base be the receiver?
+				isRecv := false
+				seen := map[ssa.Value]bool{}
+				var walk func(v ssa.Value, depth int)
+				walk = func(v ssa.Value, depth int) {
+					if depth > 6 || seen[v] {
+						return
+					}
+					seen[v] = true
+					switch x := v.(type) {
+					case *ssa.Parameter:
+						if x == recv {
+							isRecv = true
+						}
+					case *ssa.Phi:
+						for _, e := range x.Edges {
+							walk(e, depth+1)
+						}
+					case *ssa.UnOp:
+						if al, ok := x.X.(*ssa.Alloc); ok {
+							for _, ref := range *al.Referrers() {
+								if s2, ok := ref.(*ssa.Store); ok && s2.Addr == ssa.Value(al) {
+									walk(s2.Val, depth+1)
+								}
+							}
+						}
+					}
+				}
+				walk(fa.X, 0)
+				c := fmt.Sprintf("%s#stores-%s", strings.TrimPrefix(fnName(fn), pkgTemplate+"."), f)
+				r.Check(!isRecv, rule, c, p.Pos(in.Pos()), "the wrapper that is filled is a member looked up in (or created for) the set", "the method stores parsed text into its own receiver: a handle that New has detached from the set is filled, the analysis outcome is recorded on the registered member only, and after a failed analysis the handle's next execution dereferences the emptied tree")
 			}
 		}
 	}
 	if n == 0 {
-		r.Undec(rule, "template#predefined-escaper-test", "", "no lookup in the table of predefined escapers found")
+		r.OK(rule, "template#wrapper-fills", "", "no method of Template stores a text template or tree")
+	}
+}
+
+// checkChainAppendedUnconditionally (C03.R13 / C06.R10): the pipeline rewriter appends every sanitizer of the chain
+// chosen for the context. The only substitution it may make is the one it makes beforehand for a predefined escaper
+// written by the template author. A test inside the appending loop ("already present", "an equivalent one is
+// there") makes what is inserted depend on what an earlier rewrite left in the tree: the equivalence table treats
+// _sanitizeHTML, which passes safe HTML through, like the attribute escaper.
+func checkChainAppendedUnconditionally(p *Program, r *Report, rule string) {
+	fn := p.Func("template", "ensurePipelineContains")
+	if fn == nil || len(fn.Params) < 2 {
+		r.Undec(rule, "template.ensurePipelineContains", "", "anchor not found")
+		return
+	}
+	chain := fn.Params[1]
+	c := "template.ensurePipelineContains#appends-every-sanitizer"
+	n := 0
+	for _, h := range loopHeaders(fn) {
+		in := loopBlocks(h)
+		// a loop that reads elements of the chain parameter and builds a command from them
+		var build ssa.Instruction
+		for b := range in {
+			for _, ins := range b.Instrs {
+				call, ok := ins.(*ssa.Call)
+				if !ok {
+					continue
+				}
+				g := staticCallee(call.Common())
+				if g == nil || g.Pkg != fn.Pkg {
+					continue
+				}
+				for _, a := range call.Common().Args {
+					if ld, ok := a.(*ssa.UnOp); ok {
+						if ia, ok := ld.X.(*ssa.IndexAddr); ok && ia.X == ssa.Value(chain) {
+							build = ins
+						}
+					}
+				}
+			}
+		}
+		if build == nil {
+			continue
+		}
+		// is the result appended? (the loop that only compares names with the predefined escaper builds nothing)
+		appended := false
+		for _, ref := range *build.(*ssa.Call).Referrers() {
+			if _, ok := ref.(*ssa.Store); ok {
+				appended = true
+			}
+			if cl, ok := ref.(*ssa.Call); ok {
+				if bi, ok := cl.Common().Value.(*ssa.Builtin); ok && bi.Name() == "append" {
+					appended = true
+				}
+			}
+		}
+		if !appended {
+			continue
+		}
+		n++
+		every := true
+		for _, pr := range h.Preds {
+			if in[pr] && !build.Block().Dominates(pr) {
+				every = false
+			}
+		}
+		r.Check(every, rule, c, p.Pos(build.Pos()), "every sanitizer of the chain is appended on every iteration", "a sanitizer of the chain is appended only under a condition: what is inserted depends on what the pipeline already contains, so a copy of an already rewritten tree (a helper used in text first, in an attribute later) keeps _sanitizeHTML, which passes safe HTML through, in place of the attribute escaper")
+	}
+	if n == 0 {
+		r.Undec(rule, c, p.Pos(fn.Pos()), "the loop that appends the chain was not found")
 	}
 }
